@@ -175,9 +175,13 @@ func (a *application) terminate(pid gen.PID, reason error) {
 	switch a.mode {
 	case gen.ApplicationModePermanent:
 		lib.VerifPoint("app.term.stopping", a)
-		state := atomic.SwapInt32(&a.state, int32(gen.ApplicationStateStopping))
-		if state == int32(gen.ApplicationStateStopping) {
-			// already in stopping
+		// only a running application can be switched to stopping: a plain swap here
+		// moved an application that another member had already brought back to
+		// 'loaded' to 'stopping' again, and the run was finalised twice
+		if atomic.CompareAndSwapInt32(&a.state,
+			int32(gen.ApplicationStateRunning),
+			int32(gen.ApplicationStateStopping)) == false {
+			// already in stopping (or stopped)
 			break
 		}
 		a.node.Log().Info("application %s (%s) will be stopped due to termination of %s with reason: %s", a.spec.Name, a.mode, pid, reason)
@@ -196,9 +200,13 @@ func (a *application) terminate(pid gen.PID, reason error) {
 		a.node.Log().Info("application %s (%s) will be stopped due to termination of %s with reason: %s", a.spec.Name, a.mode, pid, reason)
 
 		lib.VerifPoint("app.term.stopping", a)
-		state := atomic.SwapInt32(&a.state, int32(gen.ApplicationStateStopping))
-		if state == int32(gen.ApplicationStateStopping) {
-			// already in stopping
+		// only a running application can be switched to stopping: a plain swap here
+		// moved an application that another member had already brought back to
+		// 'loaded' to 'stopping' again, and the run was finalised twice
+		if atomic.CompareAndSwapInt32(&a.state,
+			int32(gen.ApplicationStateRunning),
+			int32(gen.ApplicationStateStopping)) == false {
+			// already in stopping (or stopped)
 			break
 		}
 		lib.VerifPoint("app.term.reason", a)
